@@ -39,10 +39,23 @@ pub fn gen_case(seed: u64, profile: &str, pkg: Pkg) -> ContCase {
 }
 
 /// exit status: 0 created, 10 creation returned an error, 101 panic
-pub fn child(case: &ContCase, dest_dir: &Path, name: &str, ignore_xfsz: bool) -> i32 {
-    if ignore_xfsz {
+/// `xfsz`: 0 = default (the process dies of SIGXFSZ), 1 = ignored (every write past the limit returns EFBIG),
+/// 2 = transient (the first write past the limit returns EFBIG, the handler lifts the limit, later writes succeed).
+pub fn child(case: &ContCase, dest_dir: &Path, name: &str, xfsz: u64) -> i32 {
+    extern "C" fn lift_limit(_sig: libc::c_int) {
+        // async-signal-safe: one system call
+        let unlimited = libc::rlimit { rlim_cur: libc::RLIM_INFINITY, rlim_max: libc::RLIM_INFINITY };
+        unsafe {
+            libc::setrlimit(libc::RLIMIT_FSIZE, &unlimited);
+        }
+    }
+    if xfsz == 1 {
         unsafe {
             libc::signal(libc::SIGXFSZ, libc::SIG_IGN);
+        }
+    } else if xfsz == 2 {
+        unsafe {
+            libc::signal(libc::SIGXFSZ, lift_limit as *const () as libc::sighandler_t);
         }
     }
     match create_container(case, dest_dir, name, Arc::new(())) {
